@@ -1,6 +1,6 @@
 """C01 — conditional writes never lose an update."""
 from .. import core, sched
-from ..gen import KEY_POOL, hx, rng_for
+from ..gen import KEY_POOL, PREFIX, hx, rng_for
 
 ENGINES = ["memkv", "badger", "tikv"]
 EXTRA_PROP_MODULES = [("KB.Props.C11Conflict", "KB.C11Conflict"), ("KB.Props.C01Repair", "KB.C01Repair")]
@@ -298,6 +298,37 @@ def create_vs_repair_cases(seed, tier):
     return cases
 
 
+def reread_fault_case(engine, shape):
+    """engines whose failed put-if-absent does not carry the refusing record (TiKV) re-read it with a point Get: that read fails
+    once (`getfault`). Whatever the key's state, a read that did not answer says nothing about the key: the create ends with an
+    error, never with `condition failed` - least of all for a key that is deleted during the whole request (sequential script)."""
+    from ..gen import hx
+    from .. import hist
+    k = PREFIX + b"/rr"
+    lines = [hist.cfg_line(engine), "create %s %s" % (hx(k), hx(b"v1")), "rev"]
+    if shape == "deleted":
+        lines += ["delete %s 0" % hx(k), "rev"]
+    lines += ["getfault", "create %s %s" % (hx(k), hx(b"v2")), "rev", "get %s 0" % hx(k),
+              "create %s %s" % (hx(k), hx(b"v3")), "rev", "get %s 0" % hx(k), "list %s %s 0 0" % (hx(PREFIX + b"/"), hx(PREFIX + b"0"))]
+    return core.Case("backend", lines, {"engine": engine, "reread": shape})
+
+
+def reread_fault_oracle(case):
+    deleted = False
+    for i, (line, out) in enumerate(zip(case.lines, case.impl)):
+        t, o = line.split(), out.split()
+        if t[0] == "delete" and o[1:2] == ["ok"]:
+            deleted = True
+        if t[0] == "create" and i > 1:
+            if deleted and o[1:2] == ["cf"]:
+                return ("line %d: %s -> %s: the key was deleted before the request began and nobody created it - the condition 'absent or "
+                        "deleted' held all along, yet the create is answered `condition failed` (the engine read that failed is no reason)"
+                        % (i + 1, line, out), "create-cf-on-deleted-key-after-failed-read")
+            if o[1:2] == ["ok"]:
+                deleted = False
+    return None
+
+
 def check(rep, tier, seed):
     n, n_clients = (30, 4) if tier == "quick" else (1500, 5)
     cases = []
@@ -324,16 +355,20 @@ def check(rep, tier, seed):
     # a create of a deleted key racing the repair of the delete (eb6d1d1)
     cvr = create_vs_repair_cases(seed, tier)
     cases += cvr
+    rr = [reread_fault_case(e, sh) for e in ("tikv", "metrics-tikv", "memkv", "badger") for sh in ("deleted", "live")]
+    cases += rr
     core.run_cases(cases)
-    pick = lambda c: abandon_oracle(c) if c.meta.get("abandon") else (
+    pick = lambda c: reread_fault_oracle(c) if c.meta.get("reread") else abandon_oracle(c) if c.meta.get("abandon") else (
         create_vs_repair_oracle(c) if c.meta.get("cvr") else (
             stress_oracle(c) if c.meta.get("stress") else (sched.oracle_c01(c) or sched.oracle_cf_justified(c))))
     # a concrete failing input of the newest clauses first
+    if core.judge(rep, "C01", rr, pick):
+        return
     if core.judge(rep, "C01", cvr, pick):
         return
     if core.judge(rep, "C01", ab, pick):
         return
-    cases = [c for c in cases if not c.meta.get("abandon") and not c.meta.get("cvr")]
+    cases = [c for c in cases if not c.meta.get("abandon") and not c.meta.get("cvr") and not c.meta.get("reread")]
     if core.judge(rep, "C01", cases, pick):
         return
     rep.cov["exhaustive_pair_schedules"] = len(ex)
